@@ -80,6 +80,19 @@ inline void aligned_free_tracked(void* p, std::size_t sz, std::size_t al, bool s
     free(p);
 }
 
+// is `p` inside a live tracked block? (inline values come back from get/scan as a "pointer" that is
+// the value itself and must not be dereferenced)
+inline bool ptr_is_heap(const void* p) {
+    Ledger& L = ledger();
+    auto a = reinterpret_cast<std::uintptr_t>(p);
+    std::lock_guard<std::mutex> g(L.mu);
+    for (auto& e : L.live) {
+        auto b = reinterpret_cast<std::uintptr_t>(e.first);
+        if (a >= b && a < b + e.second.first) return true;
+    }
+    return false;
+}
+
 // ---------- hex ----------
 inline std::string hex(std::string_view s) {
     if (s.empty()) return "-";
